@@ -36,15 +36,20 @@ def cases(draw):
     for i in range(n_ops):
         k = draw(st.sampled_from(["advance", "save", "both", "both"])) if i else draw(st.sampled_from(["advance", "advance", "save"]))
         if k == "advance":
-            m = draw(st.sampled_from([0, 1, 2, 3, 5])) if ens else draw(st.sampled_from([0, 5, 14, 16, 99, 101, 125, 140] if i == 0 else [0, 1, 5, 14, 16, 40, 99, 101, 125]))
+            # (480 / 820: beyond the third / fourth re-estimation of PcaChain's directions, whose interval grows 100, 150, 225, 337.5 ...)
+            m = draw(st.sampled_from([0, 1, 2, 3, 5])) if ens else draw(st.sampled_from([0, 5, 14, 16, 99, 101, 125, 140, 480, 820] if i == 0 else [0, 1, 5, 14, 16, 40, 99, 101, 125]))
             ops.append({"op": k, "m": m})
         elif k == "both":
-            m = draw(st.sampled_from([0, 2, 3, 5])) if ens else draw(st.sampled_from([0, 1, 20, 25, 40, 101]))
+            m = draw(st.sampled_from([0, 2, 3, 5])) if ens else draw(st.sampled_from([0, 1, 20, 25, 40, 101, 350]))
             ops.append({"op": k, "m": m})
         else:
             ops.append({"op": "save", "plots": draw(st.integers(0, 9)) == 0})
     if not any(o["op"] == "save" for o in ops):
         ops.insert(draw(st.integers(0, len(ops))), {"op": "save", "plots": False})
+    if not ens and draw(st.integers(0, 6)) == 0:
+        # a long chain saved late and continued for long: tuning schedules that grow (check intervals x1.75, direction updates x1.5)
+        # reach their third and fourth stage only after hundreds of steps, and their next event only hundreds of steps after the reload
+        ops = [{"op": "advance", "m": draw(st.sampled_from([480, 560, 700]))}, {"op": "save", "plots": False}, {"op": "both", "m": draw(st.sampled_from([340, 420]))}]
     cfg["ops"] = ops
     # a public tuning attribute the user may have changed before saving (the Hamiltonian and ensemble samplers have it)
     cfg["set_max_attempts"] = draw(st.sampled_from([None, None, 7, 50]))
